@@ -502,7 +502,12 @@ func (store dbStore) LoadValidators(height int64) (*types.ValidatorSet, error) {
 			return nil, err
 		}
 
-		vs.IncrementProposerPriority(tmmath.SafeConvertInt32(height - lastStoredHeight)) // mutate
+		// The chain rotated the proposer one height at a time, re-normalising the priorities at
+		// every step; a single increment by n re-normalises only once and can end up with
+		// other priorities (and another proposer) than the set that was in force.
+		for i := lastStoredHeight; i < height; i++ {
+			vs.IncrementProposerPriority(1) // mutate
+		}
 		vi2, err := vs.ToProto()
 		if err != nil {
 			return nil, err
